@@ -4,6 +4,7 @@
 //! for TLC to validate; `replay <family>` executes spec-generated behaviours.
 //! The harness records observations; it never decides a verdict.
 
+mod drv_bias;
 mod drv_bits;
 mod drv_build;
 mod drv_decode;
@@ -12,9 +13,12 @@ mod msgen;
 mod special;
 mod special_msm;
 mod drv_frame;
+mod drv_lists;
 mod drv_msm;
 mod drv_rt;
+mod drv_serde;
 mod drv_sig;
+mod drv_text;
 mod fieldlib;
 mod frames;
 mod generated;
@@ -46,6 +50,11 @@ fn main() {
         ("record", "probes") => drv_fields::rec_probes(&a, &mut out),
         ("record", "sigtable") => drv_sig::rec_sigtable(&a, &mut out),
         ("record", "msm") => drv_msm::rec_msm(&a, &mut out),
+        ("record", "bias") => drv_bias::rec_bias(&a, &mut out),
+        ("record", "lists") => drv_lists::rec_lists(&a, &mut out),
+        ("record", "text") => drv_text::rec_text(&a, &mut out),
+        ("record", "serde") => drv_serde::rec_serde(&a, &mut out),
+        ("replay", "histories") => drv_build::replay_histories(&a, &mut out),
         _ => {
             eprintln!("usage: rtcm_conf record|replay <family> key=value...");
             std::process::exit(2);
